@@ -78,6 +78,8 @@ end
 
 def AllWs (w : List Char) : Prop := ∀ c ∈ w, isWs c = true
 
+instance (w : List Char) : Decidable (AllWs w) := by unfold AllWs; infer_instance
+
 /-- characters a bare token may contain -/
 def isBareChar (c : Char) : Bool :=
   !isWs c && c != '"' && c != ',' && c != '[' && c != ']' && c != '(' && c != ')'
